@@ -495,3 +495,139 @@ Proof.
     + unfold classify. rewrite kfun_member; auto. rewrite Hg. apply filter_In. auto.
     + rewrite kfun_other by exact Ek. reflexivity.
 Qed.
+
+(* ---------- FULL strength: every path, every written status ---------- *)
+Definition owned (sp : spec) (P : list pod) : Prop :=
+  forall p, In p P -> exists k, In k (s_tasks sp) /\ t_name k = p_task p.
+
+Lemma sync_pods_nofault_noerr : forall fixed sp view api, a_err (sync_pods_gen fixed sp view api []) = false.
+Proof.
+  intros. unfold sync_pods_gen.
+  destruct (pass1_pods fixed view (s_tasks sp) (mkAcc api c0 0 [] false)) as [_ He1]. cbn in He1.
+  match goal with |- context [if a_err ?x then _ else _] => set (a2 := x) end.
+  assert (Ee : a_err a2 = false) by (unfold a2; rewrite pass2_err_nofault; exact He1).
+  rewrite Ee. rewrite delete_fold_err_nofault. exact Ee.
+Qed.
+
+(* syncJob, all four cases (job without a phase or not, PodGroup admitted or not) *)
+Theorem sync_job_counters_partition : forall w u w' wr,
+  sync_job w u [] = (w', false, wr) -> wr = true \/ c_vdel (v_ctl w) = false ->
+  v_pods w = w_pods w -> v_st w = w_st w -> v_spec w = w_spec w ->
+  NoDup (map t_name (s_tasks (v_spec w))) -> NoDup (pod_ids (w_pods w)) -> owned (v_spec w) (w_pods w) ->
+  (st_cnt (w_st w'), st_term (w_st w')) = tally (w_pods w').
+Proof.
+  intros w u w' wr H Hwr Hfresh Hst Hspec Hts Hnd Hown.
+  destruct (sync_counters_partition (v_spec w) (w_pods w) Hts Hnd Hown) as [Herr Hpart]. cbv zeta in Herr, Hpart.
+  unfold sync_job, sync_job_gen in H.
+  destruct (c_vdel (v_ctl w)) eqn:Edel.
+  { inversion H; subst. destruct Hwr; discriminate. }
+  destruct (c_queue (v_ctl w)); cbn [negb] in H; [|discriminate].
+  cbn [fails_status existsb andb] in H. rewrite andb_false_r in H.
+  destruct (phase_beq (st_phase (v_st w)) PhNone) eqn:Ei.
+  - (* first sync of a job without a phase: the initial status is written first *)
+    set (js := mkStatus PhPending _ _ _ _ _ _ _ _) in *.
+    rewrite pj7, pj6, pj5 in H. cbn [write v_pg v_pods w_pods v_spec] in H. rewrite <- Hspec, Hfresh in H.
+    destruct (pg_admitted (v_pg w)); cbn [negb] in H.
+    + set (a := sync_pods (v_spec w) (w_pods w) (w_pods w) []) in *. rewrite Herr in H.
+      match type of H with context [status_eq_dec ?x ?y] => destruct (status_eq_dec x y) as [Heq|Hne] end.
+      * inversion H; subst. fin. rewrite Heq, apply_upd_cnt, apply_upd_term. cbn. exact Hpart.
+      * inversion H; subst. fin. rewrite apply_upd_cnt, apply_upd_term. cbn. exact Hpart.
+    + match type of H with context [status_eq_dec ?x ?y] => destruct (status_eq_dec x y) as [Heq|Hne] end.
+      * inversion H; subst. fin. rewrite <- Heq. cbn [set_tscnil st_cnt st_term].
+        rewrite apply_upd_cnt, apply_upd_term. cbn. destruct (tally (w_pods w)); reflexivity.
+      * inversion H; subst. fin. rewrite apply_upd_cnt, apply_upd_term. cbn. destruct (tally (w_pods w)); reflexivity.
+  - rewrite pj7, pj6, pj5, Hfresh in H.
+    destruct (pg_admitted (v_pg w)); cbn [negb] in H.
+    + set (a := sync_pods (v_spec w) (w_pods w) (w_pods w) []) in *. rewrite Herr in H.
+      match type of H with context [status_eq_dec ?x ?y] => destruct (status_eq_dec x y) as [Heq|Hne] end.
+      * inversion H; subst. fin. rewrite <- Hst, Heq, apply_upd_cnt, apply_upd_term. cbn. exact Hpart.
+      * inversion H; subst. fin. rewrite apply_upd_cnt, apply_upd_term. cbn. exact Hpart.
+    + match type of H with context [status_eq_dec ?x ?y] => destruct (status_eq_dec x y) as [Heq|Hne] end.
+      * inversion H; subst. fin. rewrite <- Hst, <- Heq. cbn [set_tscnil st_cnt st_term].
+        rewrite apply_upd_cnt, apply_upd_term. cbn. destruct (tally (w_pods w)); reflexivity.
+      * inversion H; subst. fin. rewrite apply_upd_cnt, apply_upd_term. cbn. destruct (tally (w_pods w)); reflexivity.
+Qed.
+
+Definition fresh_all (w : world) : Prop :=
+  v_pods w = w_pods w /\ v_st w = w_st w /\ v_spec w = w_spec w /\
+  NoDup (map t_name (s_tasks (v_spec w))) /\ NoDup (pod_ids (w_pods w)) /\ owned (v_spec w) (w_pods w).
+
+(* without injected faults an executed action fails only before anything is written *)
+Lemma execute_nofault : forall w a r w' e wr, execute w a r [] = (w', e, wr) -> wr = true -> e = false.
+Proof.
+  intros w a r w' e wr H Hwr. subst wr. unfold execute in H.
+  destruct (exec (st_phase (v_st w)) a) as [[|rt|] u].
+  - unfold sync_job, sync_job_gen in H.
+    destruct (c_vdel (v_ctl w)); [inversion H|].
+    destruct (c_queue (v_ctl w)); cbn [negb] in H; [|inversion H].
+    cbn [fails_status existsb andb] in H. rewrite andb_false_r in H.
+    cbv zeta in H. unfold sync_pods in H. rewrite ?sync_pods_nofault_noerr in H.
+    repeat match type of H with
+           | context [if ?c then _ else _] => destruct c
+           end; inversion H; reflexivity.
+  - unfold kill_pods, kill_pods_gen in H. destruct (c_vdel (v_ctl w)); [inversion H; reflexivity|].
+    destruct (kill_select _ _ _ _ _) as [kill term0]. rewrite any_fault_nil in H.
+    cbn [fails_status existsb] in H. destruct (v_pg w); inversion H; reflexivity.
+  - unfold kill_pods, kill_pods_gen in H. destruct (c_vdel (v_ctl w)); [inversion H; reflexivity|].
+    destruct (target_of a r) as [t|t p|]; try (inversion H; reflexivity).
+    all: destruct (kill_select _ _ _ _ _) as [kill term0]; rewrite any_fault_nil in H;
+      cbn [fails_status existsb] in H; inversion H; reflexivity.
+Qed.
+
+(* every action the controller executes on a fresh view, whatever the phase and the action:
+   if a status was written it partitions the pods *)
+Theorem execute_counters_partition : forall w a r w' e wr,
+  execute w a r [] = (w', e, wr) -> wr = true -> fresh_all w ->
+  (st_cnt (w_st w'), st_term (w_st w')) = tally (w_pods w').
+Proof.
+  intros w a r w' e wr H Hwr (Hfresh & Hst & Hspec & Hts & Hnd & Hown).
+  pose proof (execute_nofault _ _ _ _ _ _ H Hwr) as He. subst e wr. unfold execute in H.
+  destruct (exec (st_phase (v_st w)) a) as [[|rt|] u].
+  - apply (sync_job_counters_partition w u w' true H); auto.
+  - apply (kill_counters_partition w rt None u w' H Hfresh Hnd).
+  - apply (kill_counters_partition w RNone _ u w' H Hfresh Hnd).
+Qed.
+
+(* the FULL-strength statement: after every processed request that wrote a status ... *)
+Theorem counters_partition : forall w r w' e wr,
+  step_req w r [] = (w', e, wr) -> wr = true -> fresh_all w ->
+  (st_cnt (w_st w'), st_term (w_st w')) = tally (w_pods w').
+Proof.
+  intros w r w' e wr H Hwr Hf. unfold step_req in H.
+  set (w0 := with_delays w (clean_pod_delay (c_delay (v_ctl w)) r)) in *.
+  destruct (c_job (v_ctl w0)); cbn [negb] in H; [|inversion H; subst; discriminate].
+  destruct (apply_policies_d (v_spec w0) (v_st w0) r) as [a delayed].
+  destruct delayed; [inversion H; subst; discriminate|].
+  destruct (execute w0 a r []) as [[w1 e1] wr1] eqn:Hx.
+  assert (Hp : wr1 = true -> (st_cnt (w_st w1), st_term (w_st w1)) = tally (w_pods w1)).
+  { intros ->. apply (execute_counters_partition w0 a r w1 e1 true Hx eq_refl). exact Hf. }
+  destruct (negb e1 && negb (is_internal_action a)); inversion H; subst; cbn; auto.
+Qed.
+
+(* ... and after every delayed action that expired and wrote a status *)
+Theorem counters_partition_fire : forall w w' e wr,
+  fire w = (w', e, wr) -> wr = true -> fresh_all w ->
+  (st_cnt (w_st w'), st_term (w_st w')) = tally (w_pods w').
+Proof.
+  intros w w' e wr H Hwr Hf. unfold fire in H.
+  destruct (d_queue (c_delay (v_ctl w))) as [|[t cancelled] rest]; [inversion H; subst; discriminate|].
+  set (w0 := with_delays w _) in *.
+  destruct cancelled; [inversion H; subst; discriminate|].
+  destruct (c_job (v_ctl w0)); cbn [negb] in H; [|inversion H; subst; discriminate].
+  destruct (execute w0 (dt_action t) _ []) as [[w1 e1] wr1] eqn:Hx.
+  inversion H; subst. cbn.
+  apply (execute_counters_partition w0 _ _ w1 e1 true Hx eq_refl). exact Hf.
+Qed.
+
+Example counters_partition_nonvacuous :
+  fresh_all f2_world /\ fresh_all pgpending_world /\
+  (exists w', step_req f2_world sync_req [] = (w', false, true)) /\
+  (exists w', step_req pgpending_world sync_req [] = (w', false, true)).
+Proof.
+  assert (F : forall sp st pods pg, NoDup (map t_name (s_tasks sp)) -> NoDup (pod_ids pods) -> owned sp pods ->
+              fresh_all (init_world sp st pods pg)) by (intros; repeat split; auto).
+  split; [apply F; [repeat constructor; cbn; tauto|repeat constructor; cbn; tauto|]|].
+  - intros p [<-|[]]. exists (mkTask 1 1 (Some 1) [] None). split; [left; reflexivity|reflexivity].
+  - split; [apply F; [repeat constructor; cbn; tauto|constructor|intros p []]|].
+    split; eexists; vm_compute; reflexivity.
+Qed.
